@@ -458,9 +458,10 @@ class NodeBreak:
 
 
 class NodeClass:
-    def __init__(self, identifier, pos):
+    def __init__(self, identifier, pos, info=""):
         self.identifier = identifier
         self.members = []
+        self.info = info
         self.pos = pos
 
     def addMember(self, member):
@@ -473,6 +474,8 @@ class NodeClass:
         classEnv = environment.newEnv()
         for member in self.members:
             result.addItem(member.identifier, member.evaluate(classEnv))
+        if self.info:
+            result.info = self.info
         environment.put(self.identifier, result)
         return result
 
